@@ -301,6 +301,15 @@ def total_doc(top: int, name_hed: bool, name: str, e: int, k1_hed: bool, v: int,
     if not ok:
         return True                       # outside the bound/cell (only when called by hand without the cell's env)
     doc = _concrete(doc)
+    if not isinstance(doc, dict):
+        # a document whose top level is not a JSON object is not a sidecar: it must be refused at load with the
+        # documented file error (HedFileError), never with a TypeError/ValueError and never silently re-read
+        from hed.errors.exceptions import HedFileError
+        try:
+            sidecar_stub.load(doc)
+        except HedFileError:
+            return True
+        return False
     sc = sidecar_stub.load(doc)
     issues = sc.validate(MINI)
     if not isinstance(issues, list):
